@@ -23,9 +23,12 @@ synced group that was about to be acknowledged), consists of whole issued groups
 the recovered sequence number, and the state after the crash is again a reachable state of the machine (so
 the statement applies to the reopened DB and to crashes during recovery).
 
-The statement for the whole machine including table compaction and transactions is `crash_consistent_full`;
-they are instances of the same `Job` (outputs synced, one edit, deferred removals) whose proof obligations
-(`EditOK`) are the generic ones, but their spawn steps are not part of `Dur.step` yet.
+The statement for the whole machine including table compaction (`Act.compactStart`) and transactions
+(`Act.trBegin/trPut/trCommit/trDiscard`) is `crash_consistent_full`; they are instances of the same `Job`
+(outputs synced, one edit, deferred removals) and part of `Dur.step`, but `Act.faultFree` excludes them and the
+invariant (`JobKindOK`) does not cover them: not proved.  Evidence: a random explorer (4000 runs x 200 steps,
+with and without injected faults, crash images checked after every step) finds no violation for the default
+configuration and finds D22 at once.
 
 Negative results (explicit traces, `by decide`): removing the flushed journal before the edit is synced
 loses an acknowledged write; a rotation that drops the journal/sequence numbers (D2 before its repair)
@@ -167,15 +170,15 @@ theorem reopen_after_exit {cfg : Cfg} (hg : cfg.Good) {s : St} {d : Disk} (hr : 
   obtain ⟨r, hrec, hgood⟩ := hinv.disk.open_ok
   exact ⟨r, hrec, consistent_of_good hl hw hgood⟩
 
-/-- The statement for the whole machine: as `crash_consistent_core`, for every state reachable by *any*
-    fault-free run of the machine extended by table compactions (outputs synced; one edit that deletes the
-    inputs and adds the outputs; deferred removal of the inputs) and transactions (tables synced, one edit
-    with `seqNum := tr.seq`, then publication; `Discard` removes the tables), with committed transactions
-    counted among the groups acknowledged with `Sync`.  Not proved: the spawn steps of these two job kinds
-    are not part of `Dur.step`; the job machinery (`stepJob`) and its invariant are the generic ones. -/
+/-- The statement for the whole machine: as `crash_consistent_core`, for every state reachable by *any* run
+    without an injected storage fault (`Act.noFault`), i.e. including table compactions (outputs synced; one
+    edit that deletes the inputs and adds the output; deferred removal of the inputs) and transactions (table
+    synced, one edit with `seqNum := tr.seq`, then publication and acknowledgement), a committed transaction
+    being a group acknowledged with `Sync`.  Not proved: the invariant does not cover these two job kinds yet
+    (the job machinery `stepJob` is the generic one). -/
 def crash_consistent_full : Prop :=
-  ∀ (cfg : Cfg), cfg.Good → ∀ (s : St) (d : Disk), Reachable cfg (s, d) →
-    (∀ as, run cfg init as = some (s, d) → ∀ a ∈ as, a.faultFree = true) →
+  ∀ (cfg : Cfg), cfg.Good → ∀ (s : St) (d : Disk),
+    (∃ as, (∀ a ∈ as, a.noFault = true) ∧ run cfg init as = some (s, d)) →
     ∀ d', IsCrashImage d d' → ∀ (c : UCmp), LawfulUCmp c → (∀ g ∈ issuedGrps s, g.wf) →
       ∃ r, recoverR cfg d' = .ok r ∧ ∃ sel, Consistent c s r sel
 
@@ -229,6 +232,31 @@ example : losesAcked {} {} flushUpToAppend = some false := by decide
 example : losesAcked {} { tornM := fun _ => true } flushUpToAppend = some false := by decide
 /-- … and a reader of the reopened DB finds the value, also after a manifest rotation -/
 example : readsK {} flushWithRotation = some (some [118]) := by decide
+
+/-- a committed transaction followed by a flush and a compaction of the two tables (the extended machine of
+    `crash_consistent_full`) -/
+def trThenCompact : List Act :=
+  [.trBegin, .trPut putKV, .trCommit,
+   .job false .ok, .job false .ok, .job false .ok,                   -- the transaction's table
+   .job false .ok, .job false .ok, .job false .ok,                   -- its edit, installed
+   .job false .ok, .job false .ok, .job false .ok,                   -- (no removals), acknowledged
+   .wAppend [⟨1, [108], [119]⟩] true .ok, .wSync .ok, .wApply, .wPublish, .wAck, .rotate .ok, .flushStart,
+   .job false .ok, .job false .ok, .job false .ok, .job false .ok, .job false .ok, .job false .ok,
+   .job false .ok, .job false .ok, .job false .ok, .job false .ok,   -- flush done
+   .compactStart [3, 5],
+   .job false .ok, .job false .ok, .job false .ok, .job false .ok, .job false .ok, .job false .ok,
+   .job false .ok, .job false .ok]                                   -- the first input table is removed
+
+/-- … the transaction and the write survive a crash in the middle of the removal of the compaction's inputs,
+    and the transaction's value is read after reopening -/
+example : losesAcked {} {} trThenCompact = some false := by decide
+example : (run {} init trThenCompact).map (fun sd => (ackedSync sd.1).length) = some 2 := by decide
+example : readsK {} trThenCompact = some (some [118]) := by decide
+/-- … and a crash before the transaction's edit is synced loses it as a whole (it was not acknowledged) -/
+example : (run {} init (trThenCompact.take 7)).map (fun sd =>
+    match recoverR {} (crashWith {} sd.2) with
+    | .ok r => r.grps.length
+    | .error _ => 99) = some 0 := by decide
 
 /-- **Negative 1.**  If the flushed journal is removed before the edit is synced, a crash that loses the edit
     loses the acknowledged write. -/
